@@ -1,15 +1,15 @@
 (* C04 — property theorems only (the regenerated-table theorems are in C04/TableProofs.v, re-proved on
    every run against the table extracted from the current Go source). *)
-From C04 Require Import Model Spec Proofs Arity.
+From C04 Require Import Model Spec Proofs ProofsRestKey Arity.
 Open Scope list_scope.
 Open Scope N_scope.
 
 (* (1) For every lambda list made of required, &optional and &aux parameters with distinct names and
    every argument vector with at least the required number of arguments, the code model binds exactly
    as the lambda list prescribes (positional first, defaults when absent, auxiliaries last) and rejects
-   too many arguments.
-   FULL STATEMENT (false of the faithful model, see (3); for &rest / &key inside in_domain it is
-   evaluated on every generated case of every run, not proved):
+   too many arguments.  (Kept from the first round; (6) below extends it to &rest and &key and to every
+   lambda list the parser accepts.)
+   FULL STATEMENT (false of the faithful model outside the guard, see (3); inside the guard it is (6)):
      forall ds args, parse_ll ds = Some l -> outcome_eqv (reorder ds (bind_S l args)) (bind_M ds args) = true *)
 Theorem C04_binder_meets_spec_partial : forall req opt aux args,
   NoDup (req ++ map fst opt ++ map fst aux) -> (List.length req <= List.length args)%nat ->
@@ -27,7 +27,7 @@ Print Assumptions C04_required_positional.
 
 (* (3) outside the guard the faithful model violates the specification (known findings): too few
    arguments, unknown key, key clobbering a required parameter, duplicate key, &rest with &key,
-   keyword without a value *)
+   keyword without a value, &rest stopping at a keyword that names an &aux parameter *)
 Theorem C04_outside_guard_refuted : forallb (fun w => refuted (fst w) (snd w)) witnesses = true.
 Proof. exact outside_guard_refuted. Qed.
 Print Assumptions C04_outside_guard_refuted.
@@ -50,3 +50,78 @@ Theorem C04_guard_nonvacuous :
     OBound [(0, VInt 1); (1, VInt 5); (2, VInt 8)].
 Proof. exact guard_examples. Qed.
 Print Assumptions C04_guard_nonvacuous.
+
+(* (6) THE BINDER REFINEMENT ON THE WHOLE GUARD.  For every lambda list accepted by the parser - required,
+   &optional, &rest, &key, &aux sections in the standard order, markers spelled any way - with distinct
+   parameter names and a plain variable after &rest, and for every argument vector inside the guard
+   (at least the required arguments; not &rest together with &key; no &allow-other-keys; with &rest and
+   no &key no remaining argument is a keyword naming an &aux parameter; with &key the remaining arguments
+   are keyword/value pairs with declared keys each supplied at most once, or start with a non-keyword),
+   the two-pass binder model of Lambda.Call yields EXACTLY the outcome the specification prescribes:
+   positional first, defaults when absent, the rest collected in order, keys by name, auxiliaries last,
+   too many arguments rejected. The one divergence is the kind of the error for a lambda list whose &key
+   section is empty (and without &aux) called with a left-over non-keyword argument: the code rejects it
+   as "too many arguments", the specification as a bad key - both reject. *)
+Theorem C04_binder_meets_spec_in_guard : forall ds l args,
+  parse_ll ds = Some l -> NoDup (params ds) -> rest_plain ds = true -> in_domain ds args = true ->
+  bind_M ds args = reorder ds (bind_S l args) \/
+  (bind_M ds args = OErr KTooMany /\ bind_S l args = OErr KBadKey /\ l_key l = Some [] /\ l_aux l = []).
+Proof. exact binder_meets_spec_guard. Qed.
+Print Assumptions C04_binder_meets_spec_in_guard.
+
+(* (7) the same in the form the correspondence evaluates on every generated case (Corr.check_case code 3):
+   inside the guard the self-check can never fire *)
+Theorem C04_binder_meets_spec_eqv : forall ds l args,
+  parse_ll ds = Some l -> NoDup (params ds) -> rest_plain ds = true -> in_domain ds args = true ->
+  outcome_eqv (reorder ds (bind_S l args)) (bind_M ds args) = true.
+Proof. exact binder_meets_spec_eqv. Qed.
+Print Assumptions C04_binder_meets_spec_eqv.
+
+(* (8) &rest (without &key): the outcomes are equal, and the rest parameter holds all the arguments after
+   the positional ones, in order (nil when there is none) *)
+Theorem C04_rest_collects_in_order : forall ds l args r,
+  parse_ll ds = Some l -> NoDup (params ds) -> rest_plain ds = true -> in_domain ds args = true ->
+  l_key l = None -> l_rest l = Some r ->
+  bind_M ds args = reorder ds (bind_S l args) /\
+  exists b, bind_M ds args = OBound b /\
+            lookup b r = Some (match skipn (List.length (l_req l) + List.length (l_opt l)) args with [] => VNil | rem => VList rem end).
+Proof. exact rest_collects_in_order. Qed.
+Print Assumptions C04_rest_collects_in_order.
+
+(* (9) &key: when the remaining arguments are keyword/value pairs, every key parameter holds the value
+   supplied with its keyword wherever that pair stands among the key arguments (keys by name, in any
+   order), and its default when its keyword is absent *)
+Theorem C04_keys_by_name : forall ds l args ks ps k d,
+  parse_ll ds = Some l -> NoDup (params ds) -> rest_plain ds = true -> in_domain ds args = true ->
+  l_key l = Some ks ->
+  key_pairs (S (List.length (skipn (List.length (l_req l) + List.length (l_opt l)) args)))
+            (skipn (List.length (l_req l) + List.length (l_opt l)) args) = Some ps ->
+  In (k, d) ks ->
+  exists b, bind_M ds args = OBound b /\
+            (forall v, In (k, v) ps -> lookup b k = Some (arg_val v)) /\
+            (~ In k (map fst ps) -> lookup b k = Some (def_val d)).
+Proof. exact key_by_name. Qed.
+Print Assumptions C04_keys_by_name.
+
+(* (10) non-vacuity for (6)-(9): a &rest and a &key lambda list inside the guard with their bindings, a
+   rejected call, and the corner where only the kind of rejection differs *)
+Theorem C04_guard_nonvacuous_rest_key :
+  let ds_r := [D 0; Mk POptional; {| d_name := PVar 1; d_def := Some 7%Z |}; Mk PRest; D 2; Mk PAux; {| d_name := PVar 3; d_def := Some 9%Z |}] in
+  let ds_k := [D 0; Mk PKey; {| d_name := PVar 1; d_def := Some 5%Z |}; D 2; Mk PAux; {| d_name := PVar 3; d_def := Some 9%Z |}] in
+  in_domain ds_r [AInt 1%Z; AInt 2%Z; AKw 8; AInt 4%Z] = true /\ NoDup (params ds_r) /\ rest_plain ds_r = true /\
+  bind_M ds_r [AInt 1%Z; AInt 2%Z; AKw 8; AInt 4%Z] = OBound [(0, VInt 1); (1, VInt 2); (2, VList [AKw 8; AInt 4%Z]); (3, VInt 9)] /\
+  bind_M ds_r [AInt 1%Z] = OBound [(0, VInt 1); (1, VInt 7); (2, VNil); (3, VInt 9)] /\
+  in_domain ds_k [AInt 1%Z; AKw 2; AInt 8%Z; AKw 1; ANil] = true /\ NoDup (params ds_k) /\ rest_plain ds_k = true /\
+  bind_M ds_k [AInt 1%Z; AKw 2; AInt 8%Z; AKw 1; ANil] = OBound [(0, VInt 1); (1, VNil); (2, VInt 8); (3, VInt 9)] /\
+  in_domain ds_k [AInt 1%Z; AInt 2%Z] = true /\ bind_M ds_k [AInt 1%Z; AInt 2%Z] = OErr KBadKey /\
+  in_domain [Mk PKey] [AInt 1%Z] = true /\ bind_M [Mk PKey] [AInt 1%Z] = OErr KTooMany /\ spec_of [Mk PKey] [AInt 1%Z] = Some (OErr KBadKey).
+Proof. exact guard_examples_rest_key. Qed.
+Print Assumptions C04_guard_nonvacuous_rest_key.
+
+(* (11) the &rest / &aux witness of (3) spelled out: (defun f (&rest r &aux (x 5)) ...) called as (f :x 1)
+   binds r to nil where the lambda list prescribes (:x 1) *)
+Theorem C04_rest_stops_at_aux_name_refuted :
+  bind_M (fst w_rest_aux) (snd w_rest_aux) = OBound [(0, VNil); (1, VInt 5)] /\
+  spec_of (fst w_rest_aux) (snd w_rest_aux) = Some (OBound [(0, VList [AKw 1; AInt 1%Z]); (1, VInt 5)]).
+Proof. exact rest_aux_witness. Qed.
+Print Assumptions C04_rest_stops_at_aux_name_refuted.
